@@ -3,6 +3,7 @@ import signal
 
 from simkit.core import Result, h64
 from simkit.kernel import Sim, current_task
+from simkit import preempt
 from worlds import master, worker as W, conn as C
 from oracles import resp_ref
 
@@ -121,7 +122,7 @@ def make_case(index, rng, tier):
         t += rng.uniform(0.0, 0.15) if concurrent else rng.uniform(0.3, 1.2)
     return {"family": fam, "kind": kind, "max_requests": mr, "jitter": rng.choice([0, 0, 1, 2]), "clients": clients,
             "threads": rng.randrange(1, 4), "keepalive": rng.choice([0, 2, 2]), "workers": rng.randrange(1, 3),
-            "buggify": {"short_recv": rng.randrange(4) == 0, "fork_child_first": rng.randrange(2) == 0}, "preempt": rng.randrange(0, 4)}
+            "buggify": {"pyticks": rng.randrange(3) == 0, "short_recv": rng.randrange(4) == 0, "fork_child_first": rng.randrange(2) == 0}, "preempt": rng.randrange(0, 4)}
 
 
 def client_script(c):
@@ -145,6 +146,9 @@ def run_worker(case, choices):
     res = Result()
     sim = Sim(choices, max_steps=200000, max_time=200.0)
     sim.buggify = dict(case["buggify"])
+    if case["buggify"].get("pyticks"):
+        preempt.enable()
+        sim.py_ticks = True          # eval-breaker points inside gunicorn's Python code are delivery / pre-emption points too
     kind = case["kind"]
     w = W.WorkerWorld(sim, kind, {"timeout": 30, "graceful_timeout": 5, "keepalive": case["keepalive"], "threads": case["threads"],
                                   "worker_connections": 20, "max_requests": case["max_requests"], "max_requests_jitter": case["jitter"]})
@@ -240,6 +244,9 @@ def run_full(case, choices):
     res = Result()
     sim = Sim(choices, max_steps=250000, max_time=200.0)
     sim.buggify = dict(case["buggify"])
+    if case["buggify"].get("pyticks"):
+        preempt.enable()
+        sim.py_ticks = True          # eval-breaker points inside gunicorn's Python code are delivery / pre-emption points too
     kind = case["kind"]
     # timeout 6: a recycled worker that exits before the master registered it (fork/SIGCHLD race) is only forgotten by
     # the timeout scan, i.e. replaced up to `timeout` seconds later
